@@ -9,7 +9,7 @@ EXTENDS Integers, Sequences, TLC, Json, FiniteSets
 CONSTANTS MaxCalls, NW, MaxDelay, NYield, Pick(_), Mode
 VARIABLES prog, alive, kind
 vars == <<prog, alive, kind>>
-Init == prog = <<>> /\ alive = {} /\ kind \in (IF Mode = "both" THEN {"wd", "ww"} ELSE {Mode})
+Init == prog = <<>> /\ alive = {} /\ kind \in (IF Mode = "both" THEN {"wd", "ww"} ELSE IF Mode = "quiet" THEN {"wd"} ELSE {Mode})
 Zeros == [i \in 1..NYield |-> 0]
 Mat(s) == SubSeq(s, 1, Len(s))
 \* tick vectors: all zero, or exactly one / two positions delayed
@@ -18,9 +18,9 @@ TwoHot == {Mat([[Zeros EXCEPT ![p] = k] EXCEPT ![q] = 1]) : p \in 1..NYield, q \
 TickVecs == {Mat(Zeros)} \cup OneHot
 Emit(r) == prog' = Append(prog, r)
 NextWd ==
-  \/ \E w \in Pick((1..NW) \ alive) : \E d \in Pick(1..MaxDelay) : \E tv \in Pick(IF Mode = "both" THEN TickVecs \cup TwoHot ELSE TickVecs) : \E idle \in Pick(0..3) :
+  \/ \E w \in Pick((1..NW) \ alive) : \E d \in Pick(1..MaxDelay) : \E tv \in Pick(IF Mode = "both" THEN TickVecs \cup TwoHot ELSE IF Mode = "quiet" THEN {Mat(Zeros)} ELSE TickVecs) : \E idle \in Pick(0..3) :
        Emit([kind |-> "wd", op |-> "create", w |-> w, d |-> d, idle |-> idle, ticks |-> tv]) /\ alive' = alive \cup {w}
-  \/ \E w \in Pick(alive) : \E tv \in Pick(IF Mode = "both" THEN TickVecs \cup TwoHot ELSE TickVecs) : \E idle \in Pick(0..3) :
+  \/ \E w \in Pick(alive) : \E tv \in Pick(IF Mode = "both" THEN TickVecs \cup TwoHot ELSE IF Mode = "quiet" THEN {Mat(Zeros)} ELSE TickVecs) : \E idle \in Pick(0..3) :
        Emit([kind |-> "wd", op |-> "destroy", w |-> w, d |-> 0, idle |-> idle, ticks |-> tv]) /\ alive' = alive \ {w}
   \/ \E k \in Pick(1..4) : Emit([kind |-> "wd", op |-> "idle", w |-> 0, d |-> k, idle |-> 0, ticks |-> <<>>]) /\ UNCHANGED alive
 NextWw ==
